@@ -152,7 +152,37 @@ next:
 func c09CheckSeq(c *Ctx, seq []*rules.NetworkRule) bool {
 	res := &urlfilter.DNSResult{NetworkRules: append([]*rules.NetworkRule{}, seq...)}
 	var got, got2 []*rules.NetworkRule
-	if p := protect(func() { got = res.DNSRewrites(); got2 = res.DNSRewrites() }); p != nil {
+	var firstTexts []string
+	values := make([]string, len(seq))
+	snapshot := len(seq) <= 3
+	for i, r := range seq {
+		if snapshot && r.DNSRewrite != nil {
+			values[i] = fmt.Sprintf("%+v", *r.DNSRewrite)
+		}
+	}
+	if p := protect(func() {
+		got = res.DNSRewrites()
+		firstTexts = netTexts(got)
+		// what the caller does with the returned list is the caller's business: a second call answers afresh
+		for i := range got {
+			got[i] = nil
+		}
+		got2 = res.DNSRewrites()
+		got = got2
+		for i, t := range firstTexts {
+			if i >= len(got2) || got2[i] == nil || got2[i].RuleText != t {
+				got = nil
+			}
+		}
+		if len(got2) != len(firstTexts) {
+			got = nil
+		}
+		if got == nil && len(firstTexts) > 0 {
+			panic(fmt.Sprintf("DNSRewrites() returned %v; after the caller cleared that list, a second call returns %v", firstTexts, netTextsSafe(got2)))
+		}
+		_ = res.DNSRewritesAll()
+		got2 = res.DNSRewrites()
+	}); p != nil {
 		c.Run.Violate(ev.Violation{Pred: "no-crash", Sig: map[string]any{"seq": netTexts(seq)}, What: fmt.Sprintf("DNSRewrites panics on %v: %v", netTexts(seq), p), Replay: map[string]any{"seq": netTexts(seq)}})
 		return false
 	}
@@ -168,8 +198,12 @@ func c09CheckSeq(c *Ctx, seq []*rules.NetworkRule) bool {
 		bad("rewrites-idempotent", fmt.Sprintf("second DNSRewrites() call on %v gives %v, first gave %v", netTexts(seq), netTexts(got2), netTexts(got)))
 	}
 	for i := range seq {
-		if res.NetworkRules[i] != seq[i] {
+		if len(res.NetworkRules) != len(seq) || res.NetworkRules[i] != seq[i] {
 			bad("result-unchanged", fmt.Sprintf("DNSRewrites changed NetworkRules of the result for %v", netTexts(seq)))
+			break
+		}
+		if snapshot && seq[i].DNSRewrite != nil && fmt.Sprintf("%+v", *seq[i].DNSRewrite) != values[i] {
+			bad("result-unchanged", fmt.Sprintf("DNSRewrites over %v changed the parsed value of rule %q: it was %s, it is %+v", netTexts(seq), seq[i].RuleText, values[i], *seq[i].DNSRewrite))
 			break
 		}
 	}
@@ -212,7 +246,9 @@ func init() {
 		}
 		rulesA := make([]*rules.NetworkRule, len(alpha))
 		for i, t := range alpha {
-			rulesA[i] = get(t)
+			// list ids in no particular order along the alphabet: where a rule comes from takes no part in the filter
+			get(t)
+			rulesA[i] = mustNetRule(t, []int{5, 1, 9, 3, 7, 2, 8}[i%7])
 		}
 		var mu sync.Mutex
 		var evals, nontrivial int64
@@ -372,6 +408,18 @@ func init() {
 					le++
 					e := urlfilter.NewDNSEngine(stringStorage(strings.Join(lines, "\n") + "\n"))
 					res, _ := e.MatchRequest(&urlfilter.DNSRequest{Hostname: "example.org", DNSType: 1})
+					// the same lines spread over three lists (ids not ascending, one list of comments only; file-backed for every fourth case)
+					{
+						dst, release := deployStorage(lines, le%4 == 0)
+						dres, _ := urlfilter.NewDNSEngine(dst).Match("example.org")
+						if len(dres.NetworkRules) != len(lines) {
+							c.Run.Violate(ev.Violation{Pred: "engine-returns-all-rewrite-rules", Sig: map[string]any{"lines": lines, "storage": "three lists"},
+								What: fmt.Sprintf("DNSEngine over %v spread over three lists (file-backed: %v) returned %v", lines, le%4 == 0, netTexts(dres.NetworkRules)), Replay: map[string]any{"seq": lines}})
+						} else {
+							c09CheckSeq(c, dres.NetworkRules)
+						}
+						release()
+					}
 					if len(res.NetworkRules) != len(lines) {
 						c.Run.Violate(ev.Violation{Pred: "engine-returns-all-rewrite-rules", Sig: map[string]any{"lines": lines},
 							What: fmt.Sprintf("DNSEngine over %v returned %v", lines, netTexts(res.NetworkRules)), Replay: map[string]any{"seq": lines}})
